@@ -17,6 +17,9 @@ from geolint.typeval import TypeEval
 MEMKINDS = (A.ND, A.ALIKE, A.TENSOR, A.UNKN, A.OBJ)
 
 
+MEMO_DECORATORS = {"lru_cache", "cache", "cached", "memoize"}
+
+
 class FnAnalysis(ExprMixin):
     def __init__(self, engine: "Engine", fn: FunctionInfo, ctx: str, outer_env: dict | None = None) -> None:
         self.engine = engine
@@ -471,6 +474,11 @@ class FnAnalysis(ExprMixin):
                 pass
             rv = subst_av(self.engine, s.ret, b) if s.ret is not None else A.BOTTOM_AV
             rv = self.engine.refine_return(callee, rv, recv, cls_av)
+            if MEMO_DECORATORS & set(callee.decorators):
+                # functools.lru_cache / cache: every caller receives the SAME object for equal arguments - process-wide shared state
+                path = f"G:{callee.qualname}@memo"
+                rv = AV(kind=rv.kind if rv.kind not in (A.IMM, A.BOTTOM) else rv.kind, ident=frozenset({path}), mem=frozenset({(path, DEF)}),
+                        types=rv.types, elem=rv.elem) if rv.kind not in (A.IMM, A.BOTTOM) else rv
             out = A.join(out, rv)
         return out if out is not None else A.fresh()
 
